@@ -4,3 +4,10 @@ import EasyNet.Model.Framers
 import EasyNet.Model.Consumer
 import EasyNet.Drv.Util
 import EasyNet.Drv.Framing
+import EasyNet.Model.Spec
+import EasyNet.Lemmas.Find
+import EasyNet.Lemmas.RU
+import EasyNet.Lemmas.ConsumerSim
+import EasyNet.Lemmas.ChunkIndep
+import EasyNet.Lemmas.RUSpec
+import EasyNet.Props.C01
